@@ -216,11 +216,108 @@ theorem stepCStep_some {c : Cfg} {s s' : St} (h : stepCStep c s = some s') :
     · rename_i d bs r hd hs; simp at h
       refine .emit d bs r hs ?_ h.symm
       intro hn; subst hn
-      trace_state
-      exact hd _ _ hs
+      exact hd rfl
     · rename_i r hs; simp at h; exact .nop r hs h.symm
     · rename_i code r hs; simp at h; exact .exit code r hs h.symm
     · rename_i sg r hs; simp at h; exact .kill sg r hs h.symm
   · simp at h
+
+/-! ## termination: every step decreases `mu` -/
+
+theorem wScript_cons (a : CAct) (r : List CAct) : wScript (a :: r) = wAct a + wScript r := rfl
+
+theorem mu_decrease {c : Cfg} {s s' : St} {e : Ev} (h : step c s e = some s') : mu s' < mu s := by
+  cases e with
+  | wr k =>
+    obtain ⟨-, h2, -, -, h5, -, h7, -, rfl⟩ := stepWr_some h
+    simp [mu, h2, List.length_drop]
+    omega
+  | wrEpipe =>
+    obtain ⟨-, g2, -, g4, -, rfl⟩ := stepWrEpipe_some h
+    have : 0 < s.wleft.length := List.length_pos_iff.mpr g4
+    simp [mu, g2]; omega
+  | wclose =>
+    obtain ⟨-, -, g3, -, rfl⟩ := stepWclose_some h
+    simp [mu, b2n, g3]
+  | rd d k =>
+    cases d with
+    | out =>
+      obtain ⟨-, -, -, g4, -, g6, rfl⟩ := stepRd_out_some h
+      simp [mu, List.length_drop]; omega
+    | err =>
+      obtain ⟨-, -, -, g4, -, g6, rfl⟩ := stepRd_err_some h
+      simp [mu, List.length_drop]; omega
+    | null => simp [step, stepRd_null] at h
+  | rdEof d =>
+    cases d with
+    | out =>
+      obtain ⟨-, -, g3, -, -, rfl⟩ := stepRdEof_out_some h
+      simp [mu, b2n, g3]
+    | err =>
+      obtain ⟨-, -, g3, -, -, rfl⟩ := stepRdEof_err_some h
+      simp [mu, b2n, g3]
+    | null => simp [step, stepRdEof_null] at h
+  | wtStart =>
+    obtain ⟨-, -, g3, rfl⟩ := stepWtStart_some h
+    simp [mu, g3, wtRank]
+  | wtReady =>
+    obtain ⟨-, -, -, g3, -, rfl⟩ := stepWtReady_some h
+    simp [mu, g3, wtRank]
+  | wtTake =>
+    obtain ⟨-, -, -, g3, -, rfl⟩ := stepWtTake_some h
+    simp [mu, g3, wtRank]
+  | wtDone =>
+    obtain ⟨-, -, g3, st, -, rfl⟩ := stepWtDone_some h
+    cases hp : c.pidfd <;> simp [mu, g3, wtRank, Cfg.lastPc, hp]
+  | cRead k =>
+    obtain ⟨g1, g2, lim, blk, dst, r, hs, g3, g4, g5, g6, rfl⟩ := stepCRead_some (c := c) h
+    cases dst <;> simp [mu, hs, g2, wScript_cons, wAct, List.length_drop, List.length_take] <;> omega
+  | cEof =>
+    obtain ⟨-, -, -, -, lim, blk, dst, r, hs, -, rfl⟩ := stepCEof_some (c := c) h
+    simp [mu, hs, wScript_cons, wAct]
+  | cWrite k =>
+    obtain ⟨-, g2, g3, hh⟩ := stepCWrite_some h
+    rcases hh with ⟨-, -, rfl⟩ | ⟨-, -, rfl⟩ <;> simp [mu, List.length_drop, List.length_take] <;> omega
+  | cStep =>
+    obtain ⟨g1, g2, hc⟩ := stepCStep_some (c := c) h
+    cases hc with
+    | fallOff hs h => subst h; simp [mu, g1, b2n]
+    | copyDone blk dst r hs h => subst h; simp [mu, hs, wScript_cons, wAct]
+    | emitNull bs r hs h => subst h; simp [mu, hs, wScript_cons, wAct]; omega
+    | emit d bs r hs hd h => subst h; simp [mu, hs, g2, wScript_cons, wAct]; omega
+    | nop r hs h => subst h; simp [mu, hs, wScript_cons, wAct]
+    | exit code r hs h => subst h; simp [mu, hs, g1, wScript_cons, wAct, b2n, wScript]; omega
+    | kill sg r hs h => subst h; simp [mu, hs, g1, wScript_cons, wAct, b2n, wScript]; omega
+
+
+theorem run_nil (c : Cfg) (s : St) : run c s [] = some s := rfl
+
+theorem run_cons (c : Cfg) (s : St) (e : Ev) (es : List Ev) :
+    run c s (e :: es) = (match step c s e with | some s' => run c s' es | none => none) := rfl
+
+theorem run_append {c : Cfg} {s s1 : St} {es1 es2 : List Ev} (h : run c s es1 = some s1) :
+    run c s (es1 ++ es2) = run c s1 es2 := by
+  induction es1 generalizing s with
+  | nil => simp [run] at h; subst h; rfl
+  | cons e es ih =>
+    simp only [List.cons_append, run_cons] at h ⊢
+    cases hs : step c s e with
+    | none => simp [hs] at h
+    | some s2 => simp only [hs] at h ⊢; exact ih h
+
+/-- a run of `n` steps lowers the measure by at least `n` -/
+theorem run_mu {c : Cfg} {s s' : St} {es : List Ev} (h : run c s es = some s') :
+    mu s' + es.length ≤ mu s := by
+  induction es generalizing s with
+  | nil => simp [run] at h; subst h; simp
+  | cons e es ih =>
+    simp only [run_cons] at h
+    cases hs : step c s e with
+    | none => simp [hs] at h
+    | some s2 =>
+      simp only [hs] at h
+      have := ih h
+      have := mu_decrease hs
+      simp only [List.length_cons]; omega
 
 end Compio.ChildIo
